@@ -12,6 +12,7 @@
   walks down to m without jumping below it.
 -/
 import VK.Props.C01Veto
+import VK.Lemmas.Fill
 
 namespace VK
 
@@ -162,5 +163,719 @@ theorem vetoLoop_no_strike (p : Profile) (tb : Option TB) (order : List Nat) (i 
         · split at h
           · exact stepfact _ _ _ h
           · cases h
+
+/-! ### the first-place tallies add up to the number of ballots -/
+
+theorem positionAlloc_nonneg (v : List Rat) (hv : ∀ x ∈ v, 0 ≤ x) (r : Ranking) (i : Nat) :
+    ∀ sa ∈ positionAlloc v i r, 0 ≤ sa.2 := by
+  induction r generalizing i with
+  | nil => simp [positionAlloc]
+  | cons s rest ih =>
+    intro sa hsa
+    simp only [positionAlloc, List.mem_cons] at hsa
+    rcases hsa with h | h
+    · rw [h]
+      simp only
+      apply div_nonneg
+      · apply rsum_nonneg
+        intro x hx
+        exact hv x (List.mem_of_mem_drop (List.mem_of_mem_take hx))
+      · exact_mod_cast Nat.zero_le _
+    · exact ih _ sa h
+
+theorem ballotPoints_nonneg (v : List Rat) (hv : ∀ x ∈ v, 0 ≤ x) (r : Ranking) (c : Cand) :
+    0 ≤ ballotPoints v r c := by
+  unfold ballotPoints
+  apply rsum_nonneg
+  intro x hx
+  obtain ⟨sa, hsa, rfl⟩ := List.mem_map.1 hx
+  exact positionAlloc_nonneg v hv r 0 sa (List.mem_filter.1 hsa).1
+
+theorem fpvVector_nonneg (n : Nat) : ∀ x ∈ fpvVector n, 0 ≤ x := by
+  intro x hx
+  unfold fpvVector at hx
+  rcases List.mem_cons.1 hx with h | h
+  · rw [h]; decide
+  · rw [(List.mem_replicate.1 h).2]
+
+theorem rsum_take_fpv (n k : Nat) (hk : 1 ≤ k) : rsum ((fpvVector n).take k) = 1 := by
+  obtain ⟨j, rfl⟩ : ∃ j, k = j + 1 := ⟨k - 1, by omega⟩
+  unfold fpvVector
+  rw [List.take_succ_cons, rsum_cons]
+  have : rsum ((List.replicate n (0 : Rat)).take j) = 0 := by
+    apply rsum_zeros
+    intro x hx
+    exact (List.mem_replicate.1 (List.mem_of_mem_take hx)).2
+  rw [this]; simp
+
+theorem posSum_of_nonneg (sc : List (Cand × Rat)) (h : ∀ cs ∈ sc, 0 ≤ cs.2) :
+    posSum sc = rsum (sc.map (·.2)) := by
+  unfold posSum
+  congr 1
+  apply List.map_congr_left
+  intro cs hcs
+  split
+  · rfl
+  · rename_i hn
+    have := h cs hcs
+    linarith [le_of_not_gt hn]
+
+/-- the completed ballot (`add_missing_cands`) is again a ranking without repeats over the
+declared candidates with non-empty positions, and it lists somebody -/
+theorem addMissing_wf (cands : List Cand) (hc : cands.Nodup) (b : Ballot)
+    (hne : b.ranking ≠ []) (hpos : ∀ s ∈ b.ranking, s ≠ []) (hnd : b.ranking.flatten.Nodup)
+    (hsub : ∀ c ∈ b.ranking.flatten, c ∈ cands) :
+    (addMissingBallot cands b).ranking.flatten.Nodup ∧
+    (∀ c ∈ (addMissingBallot cands b).ranking.flatten, c ∈ cands) ∧
+    (∀ s ∈ (addMissingBallot cands b).ranking, s ≠ []) ∧
+    1 ≤ (addMissingBallot cands b).ranking.flatten.length := by
+  have hlen : 1 ≤ b.ranking.flatten.length := by
+    cases hr : b.ranking with
+    | nil => exact absurd hr hne
+    | cons s rest =>
+      have hs : s ≠ [] := hpos s (by rw [hr]; simp)
+      cases s with
+      | nil => exact absurd rfl hs
+      | cons x xs => simp
+  unfold addMissingBallot
+  simp only
+  split
+  · exact ⟨hnd, hsub, hpos, hlen⟩
+  · rename_i hmiss
+    have hm : missingCands cands b.ranking ≠ [] := by simpa using hmiss
+    refine ⟨?_, ?_, ?_, ?_⟩
+    · rw [List.flatten_append]
+      simp only [List.flatten_cons, List.flatten_nil, List.append_nil]
+      refine List.nodup_append.2 ⟨hnd, hc.filter _, ?_⟩
+      intro a ha b' hb' hab
+      subst hab
+      unfold missingCands at hb'
+      have := (List.mem_filter.1 hb').2
+      simp only [Bool.not_eq_true', List.contains_eq_mem, decide_eq_false_iff_not] at this
+      exact this ha
+    · intro c hcm
+      rw [List.flatten_append] at hcm
+      simp only [List.flatten_cons, List.flatten_nil, List.append_nil, List.mem_append] at hcm
+      rcases hcm with h | h
+      · exact hsub c h
+      · exact (List.mem_filter.1 h).1
+    · intro s hs
+      rcases List.mem_append.1 hs with h | h
+      · exact hpos s h
+      · simp only [List.mem_singleton] at h; rw [h]; exact hm
+    · rw [List.flatten_append, List.length_append]; omega
+
+/-- **The first-place tallies of unit ballots add up to the number of ballots.** -/
+theorem fpv_posSum (q : Profile) (sc : List (Cand × Rat)) (h : firstPlaceVotes q = .ok sc)
+    (hc : q.cands.Nodup)
+    (hne : ∀ b ∈ q.ballots, b.ranking ≠ [])
+    (hpos : ∀ b ∈ q.ballots, ∀ s ∈ b.ranking, s ≠ [])
+    (hnd : ∀ b ∈ q.ballots, b.ranking.flatten.Nodup)
+    (hsub : ∀ b ∈ q.ballots, ∀ c ∈ b.ranking.flatten, c ∈ q.cands)
+    (hw : ∀ b ∈ q.ballots, b.weight = 1) :
+    posSum sc = (q.ballots.length : Rat) ∧ ∀ cs ∈ sc, 0 ≤ cs.2 := by
+  have hspec := C04_score_spec q (fpvVector q.cands.length) sc h
+  rw [padVector_fpv] at hspec
+  have hnn : ∀ cs ∈ sc, 0 ≤ cs.2 := by
+    intro cs hcs
+    rw [hspec] at hcs
+    obtain ⟨c, _, rfl⟩ := List.mem_map.1 hcs
+    simp only
+    apply rsum_nonneg
+    intro x hx
+    obtain ⟨b, hb, rfl⟩ := List.mem_map.1 hx
+    rw [hw b hb, mul_one]
+    exact ballotPoints_nonneg _ (fpvVector_nonneg _) _ _
+  refine ⟨?_, hnn⟩
+  rw [posSum_of_nonneg sc hnn, hspec]
+  simp only [List.map_map, Function.comp_def]
+  rw [rsum_comm]
+  have : ∀ b ∈ q.ballots, rsum (q.cands.map (fun c =>
+      ballotPoints (fpvVector q.cands.length) (addMissingBallot q.cands b).ranking c * b.weight)) = 1 := by
+    intro b hb
+    obtain ⟨w1, w2, w3, w4⟩ := addMissing_wf q.cands hc b (hne b hb) (hpos b hb) (hnd b hb) (hsub b hb)
+    rw [rsum_map_mul_right, C04_ballot_total _ _ _ hc w1 w2 w3, rsum_take_fpv _ _ w4, hw b hb]
+    simp
+  rw [show rsum (q.ballots.map (fun b => rsum (q.cands.map (fun c =>
+      ballotPoints (fpvVector q.cands.length) (addMissingBallot q.cands b).ranking c * b.weight)))) =
+      rsum (q.ballots.map (fun _ => (1 : Rat))) from by
+        congr 1
+        apply List.map_congr_left
+        intro b hb
+        exact this b hb]
+  rw [rsum_const_mul]; simp
+
+/-! ### nothing a round calls can run out of fuel -/
+
+theorem noFuel_decScore (c : Cand) (sc : List (Cand × Rat)) : NoFuel (decScore c sc) := by
+  induction sc with
+  | nil => exact noFuel_raised _
+  | cons x rest ih =>
+    obtain ⟨d, s⟩ := x
+    unfold decScore
+    split
+    · exact noFuel_ok _
+    · exact noFuel_bind _ _ ih (fun _ => noFuel_pure _)
+
+theorem noFuel_breakGroupsS (smp : List (List Cand)) (r : Ranking) : NoFuel (breakGroupsS smp r) := by
+  induction r generalizing smp with
+  | nil => exact noFuel_ok _
+  | cons g gs ih =>
+    unfold breakGroupsS
+    split
+    · exact noFuel_bind _ _ (ih _) (fun _ => noFuel_pure _)
+    · split
+      · exact noFuel_mismatch
+      · exact noFuel_bind _ _ (noFuel_orderBy _ _) (fun _ => noFuel_bind _ _ (ih _) (fun _ => noFuel_pure _))
+
+theorem noFuel_tiebreakSetS (smp : List (List Cand)) (s : List Cand) (p : Profile) (tb : TB) :
+    NoFuel (tiebreakSetS smp s p tb) := by
+  unfold tiebreakSetS
+  split
+  · split
+    · exact noFuel_mismatch
+    · exact noFuel_bind _ _ (noFuel_orderBy _ _) (fun _ => noFuel_pure _)
+  · simp only
+    split
+    · exact noFuel_bind _ _ (noFuel_scoreFromRankings _ _) (fun _ => noFuel_breakGroupsS _ _)
+    · exact noFuel_bind _ _ (noFuel_scoreFromRankings _ _) (fun _ => noFuel_breakGroupsS _ _)
+
+theorem noFuel_vetoLoop (p : Profile) (tb : Option TB) (order : List Nat) (i : Nat)
+    (sc : List (Cand × Rat)) (smp : List (List Cand)) (tbs : List (List Cand × Ranking)) :
+    NoFuel (vetoLoop p tb order i sc smp tbs) := by
+  induction order generalizing i sc smp tbs with
+  | nil =>
+    unfold vetoLoop
+    split
+    · exact noFuel_raised _
+    · exact noFuel_ok _
+  | cons bi rest ih =>
+    unfold vetoLoop
+    split
+    · exact noFuel_mismatch
+    · split
+      · exact ih _ _ _ _
+      · have stepfact : ∀ (least : Cand) (smp' : List (List Cand)) (tbs' : List (List Cand × Ranking)),
+            NoFuel (do
+              let (sc', v) ← decScore least sc
+              if v ≤ 0 then pure (⟨some least, i, smp', tbs'⟩ : VetoOut)
+              else vetoLoop p tb rest (i + 1) sc' smp' tbs') := by
+          intro least smp' tbs'
+          refine noFuel_bind _ _ (noFuel_decScore _ _) ?_
+          rintro ⟨sc', v⟩
+          simp only
+          split
+          · exact noFuel_pure _
+          · exact ih _ _ _ _
+        simp only
+        split
+        · split
+          · exact noFuel_raised _
+          · refine noFuel_bind _ _ (noFuel_tiebreakSetS _ _ _ _) ?_
+            rintro ⟨rk, smp'⟩
+            simp only
+            split
+            · exact stepfact _ _ _
+            · exact noFuel_mismatch
+        · split
+          · exact stepfact _ _ _
+          · exact noFuel_raised _
+
+theorem noFuel_pvRound (tb : Option TB) (st : PVState) (prev : RoundState) : NoFuel (pvRound tb st prev) := by
+  unfold pvRound
+  refine noFuel_bind _ _ (noFuel_vetoLoop _ _ _ _ _ _ _) ?_
+  intro out
+  exact noFuel_bind _ _ (noFuel_scoreFromRankings _ _) (fun _ => noFuel_pure _)
+
+/-! ### the shape of a round -/
+
+/-- what a successful round did, spelled out -/
+theorem pvRound_shape (tb : Option TB) (st st' : PVState) (prev s : RoundState)
+    (h : pvRound tb st prev = .ok (st', s)) :
+    ∃ out sc elimNow, vetoLoop st.prof tb st.order 0 prev.scores st.samples [] = .ok out ∧
+      elimNow = zeroOf prev ++ out.struck.toList ∧
+      firstPlaceVotes (scoreProfile (removeCand elimNow st.prof (cond := false) (leaveZero := true))) = .ok sc ∧
+      st' = { prof := removeCand elimNow st.prof (cond := false) (leaveZero := true),
+              order := st.order.drop (out.index + 1) ++ st.order.take (out.index + 1),
+              elim := sortCands (st.elim ++ elimNow), samples := out.samples } ∧
+      s = pvRecord prev elimNow out.tiebreaks sc := by
+  unfold pvRound at h
+  cases hv : vetoLoop st.prof tb st.order 0 prev.scores st.samples [] with
+  | raised e => simp [hv, bind, Outcome.bind] at h
+  | oracleMismatch => simp [hv, bind, Outcome.bind] at h
+  | outOfFuel => simp [hv, bind, Outcome.bind] at h
+  | ok out =>
+    simp only [hv, bind, Outcome.bind] at h
+    cases hs : out.struck with
+    | none =>
+      simp only [hs] at h
+      cases hf : firstPlaceVotes (scoreProfile (removeCand (zeroOf prev) st.prof (cond := false) (leaveZero := true))) with
+      | ok sc =>
+        unfold zeroOf at hf
+        simp only [hf, pure] at h
+        injection h with h
+        injection h with h1 h2
+        refine ⟨out, sc, zeroOf prev, rfl, by simp [hs], ?_, ?_, ?_⟩
+        · unfold zeroOf; exact hf
+        · rw [← h1]; rfl
+        · rw [← h2]; rfl
+      | raised e => unfold zeroOf at hf; simp [hf] at h
+      | oracleMismatch => unfold zeroOf at hf; simp [hf] at h
+      | outOfFuel => unfold zeroOf at hf; simp [hf] at h
+    | some c0 =>
+      simp only [hs] at h
+      cases hf : firstPlaceVotes (scoreProfile (removeCand (zeroOf prev ++ [c0]) st.prof (cond := false) (leaveZero := true))) with
+      | ok sc =>
+        unfold zeroOf at hf
+        simp only [hf, pure] at h
+        injection h with h
+        injection h with h1 h2
+        refine ⟨out, sc, zeroOf prev ++ [c0], rfl, by simp [hs], ?_, ?_, ?_⟩
+        · unfold zeroOf; exact hf
+        · rw [← h1]; rfl
+        · rw [← h2]; rfl
+      | raised e => unfold zeroOf at hf; simp [hf] at h
+      | oracleMismatch => unfold zeroOf at hf; simp [hf] at h
+      | outOfFuel => unfold zeroOf at hf; simp [hf] at h
+
+/-! ### the strengthened invariant: unit weights, no repeats, the order is a rearrangement, the tallies add up -/
+
+structure PvWF2 (p : Profile) : Prop where
+  unitw : ∀ b ∈ p.ballots, b.ranking ≠ [] → b.weight = 1
+  nodupb : ∀ b ∈ p.ballots, b.ranking.flatten.Nodup
+
+theorem pvWF2_remove (removed : List Cand) (p : Profile) (h : PvWF2 p) :
+    PvWF2 (removeCand removed p (cond := false) (leaveZero := true)) := by
+  refine ⟨?_, ?_⟩
+  all_goals
+    intro b' hb'
+    rw [removeCand_veto_ballots] at hb'
+    obtain ⟨b, hb, rfl⟩ := List.mem_map.1 hb'
+  · intro hne
+    unfold scrubBallot at hne ⊢
+    simp only at hne ⊢
+    split
+    · rename_i hif
+      simp [hif] at hne
+    · apply h.unitw b hb
+      intro e
+      rename_i hif
+      simp only [hif, Bool.false_eq_true, if_false] at hne
+      rw [e, scrubRanking_nil] at hne
+      exact hne rfl
+  · unfold scrubBallot
+    simp only
+    split
+    · simp
+    · simp only
+      rw [C12_order]
+      exact (h.nodupb b hb).filter _
+
+/-- the ballots that still rank somebody -/
+def liveBallots (p : Profile) : List Ballot := p.ballots.filter (fun b => !b.ranking.isEmpty)
+
+theorem liveCount_range_aux (l : List Ballot) :
+    ((List.range l.length).filter (fun i => match l[i]? with
+      | some b => !b.ranking.isEmpty
+      | none => false)).length = (l.filter (fun b => !b.ranking.isEmpty)).length := by
+  induction l with
+  | nil => rfl
+  | cons x xs ih =>
+    rw [List.length_cons, List.range_succ_eq_map, List.filter_cons]
+    simp only [List.getElem?_cons_zero]
+    rw [List.filter_map]
+    simp only [Function.comp_def, List.getElem?_cons_succ]
+    rw [List.filter_cons]
+    split <;> simp [ih]
+
+theorem liveCount_range (p : Profile) : liveCount p (List.range p.ballots.length) = (liveBallots p).length := by
+  unfold liveCount liveBallots liveAt
+  exact liveCount_range_aux p.ballots
+
+structure PvInv2 (st : PVState) (prev : RoundState) : Prop where
+  wf2 : PvWF2 st.prof
+  order : st.order.Perm (List.range st.prof.ballots.length)
+  sum : posSum prev.scores = ((liveBallots st.prof).length : Rat)
+
+theorem liveCount_order (st : PVState) (prev : RoundState) (inv2 : PvInv2 st prev) :
+    liveCount st.prof st.order = (liveBallots st.prof).length := by
+  rw [← liveCount_range]
+  unfold liveCount
+  exact (inv2.order.filter _).length_eq
+
+/-- tallies of the ballots that still rank somebody add up to their number -/
+theorem scoreProfile_sum (p : Profile) (h : PvWF p) (h2 : PvWF2 p) (sc : List (Cand × Rat))
+    (hf : firstPlaceVotes (scoreProfile p) = .ok sc) : posSum sc = ((liveBallots p).length : Rat) := by
+  have hb : (scoreProfile p).ballots = liveBallots p := rfl
+  have := fpv_posSum (scoreProfile p) sc hf (sortCands_nodup _) ?_ ?_ ?_ ?_ ?_
+  · rw [this.1, hb]
+  all_goals
+    intro b hbm
+    rw [hb] at hbm
+    obtain ⟨hbp, hlive⟩ := List.mem_filter.1 hbm
+    have hne : b.ranking ≠ [] := by
+      intro e; rw [e] at hlive; simp at hlive
+  · exact hne
+  · exact h.pos b hbp
+  · exact h2.nodupb b hbp
+  · intro c hc
+    show c ∈ candsCast (liveBallots p)
+    unfold candsCast
+    rw [mem_sortCands]
+    refine List.mem_flatMap.2 ⟨b, List.mem_filter.2 ⟨hbm, ?_⟩, ?_⟩
+    · rw [h2.unitw b hbp hne]; decide
+    · unfold Ballot.cands; exact List.mem_append_left _ hc
+  · exact h2.unitw b hbp hne
+
+/-- **With a ballot still ranking somebody, the pass strikes a candidate; the strengthened invariant
+is kept.** -/
+theorem pvRound_progress (cands : List Cand) (hcn : cands.Nodup) (tb : Option TB) (st st' : PVState)
+    (prev s : RoundState) (acc : List RoundState) (inv : PvInv cands st prev acc) (inv2 : PvInv2 st prev)
+    (hlive : liveBallots st.prof ≠ [])
+    (h : pvRound tb st prev = .ok (st', s)) :
+    PvInv2 st' s ∧ ∃ c0, s.eliminated.flatten = sortCands (zeroOf prev ++ [c0]) := by
+  have hinv' := pvRound_inv cands hcn tb st st' prev s acc inv h
+  obtain ⟨out, sc, elimNow, hv, hel, hf, hst, hs⟩ := pvRound_shape tb st st' prev s h
+  -- the pass must have struck somebody
+  have hstruck : ∃ c0, out.struck = some c0 := by
+    cases hsn : out.struck with
+    | some c0 => exact ⟨c0, rfl⟩
+    | none =>
+      exfalso
+      have hlen : 0 < (liveBallots st.prof).length := List.length_pos_of_ne_nil hlive
+      rcases vetoLoop_no_strike _ _ _ _ _ _ _ out hv hsn with h0 | hlt
+      · rw [liveCount_order st prev inv2] at h0; omega
+      · rw [liveCount_order st prev inv2, inv2.sum] at hlt
+        exact lt_irrefl _ hlt
+  obtain ⟨c0, hc0⟩ := hstruck
+  have hel' : elimNow = zeroOf prev ++ [c0] := by rw [hel, hc0]; rfl
+  subst hst hs
+  refine ⟨⟨?_, ?_, ?_⟩, c0, ?_⟩
+  · exact pvWF2_remove elimNow st.prof inv2.wf2
+  · simp only
+    rw [removeCand_veto_ballots, List.length_map]
+    refine List.Perm.trans ?_ inv2.order
+    have := List.take_append_drop (out.index + 1) st.order
+    exact (List.perm_append_comm).trans (by rw [this])
+  · exact scoreProfile_sum _ hinv'.wf (pvWF2_remove elimNow st.prof inv2.wf2) sc hf
+  · simp only
+    rw [← hel']
+    split
+    · rename_i hW
+      have : sortCands elimNow = [] := by simpa using hW
+      simp [this]
+    · simp
+
+/-! ### the loop ends -/
+
+theorem sortCands_length_le (l : List Cand) : (sortCands l).length ≤ l.length := by
+  have hins : ∀ (c : Cand) (l : List Cand), (insertSorted c l).length ≤ l.length + 1 := by
+    intro c l
+    induction l with
+    | nil => simp [insertSorted]
+    | cons x xs ih =>
+      unfold insertSorted
+      split
+      · simp
+      · split
+        · simp
+        · simp only [List.length_cons]; omega
+  induction l with
+  | nil => simp [sortCands]
+  | cons x xs ih =>
+    have : sortCands (x :: xs) = insertSorted x (sortCands xs) := rfl
+    rw [this]
+    have := hins x (sortCands xs)
+    simp only [List.length_cons]; omega
+
+theorem posSum_pos_of_mem (sc : List (Cand × Rat)) (cs : Cand × Rat) (h : cs ∈ sc) (hp : 0 < cs.2) :
+    0 < posSum sc := by
+  induction sc with
+  | nil => cases h
+  | cons x rest ih =>
+    rw [posSum_cons]
+    rcases List.mem_cons.1 h with e | e
+    · subst e
+      simp only [hp, if_true]
+      have := posSum_nonneg rest
+      linarith
+    · have := ih e
+      have h0 : 0 ≤ (if 0 < x.2 then x.2 else 0) := by
+        split
+        · rename_i hx; exact le_of_lt hx
+        · exact le_refl _
+      linarith
+
+/-- number of candidates with a positive first-place tally -/
+def positiveCount (sc : List (Cand × Rat)) : Nat := (sc.filter (fun cs => decide (0 < cs.2))).length
+
+theorem zero_length (prev : RoundState) (h0 : prev.round = 0) :
+    (zeroOf prev).length + positiveCount prev.scores = prev.scores.length := by
+  unfold zeroOf positiveCount
+  simp only [h0, if_true, List.length_map]
+  have h1 := List.length_eq_length_filter_add (l := prev.scores) (fun cs => decide (cs.2 ≤ 0))
+  have h2 : prev.scores.filter (fun cs => !decide (cs.2 ≤ 0)) = prev.scores.filter (fun cs => decide (0 < cs.2)) := by
+    apply List.filter_congr
+    intro cs _
+    by_cases hc : cs.2 ≤ 0
+    · simp [hc, not_lt.2 hc]
+    · simp [hc, lt_of_not_ge hc]
+  rw [h2] at h1
+  omega
+
+/-- **The loop never runs out of fuel** when the standing candidates are at least the seats, the fuel
+covers the candidates still to be removed, and — before the first round — either everybody is to be
+seated or at least `m + 1` candidates have a first-place vote. -/
+theorem pvLoop_noFuel (cands : List Cand) (hcn : cands.Nodup) (m : Nat) (hm1 : 1 ≤ m) (tb : Option TB) (fuel : Nat)
+    (st : PVState) (prev : RoundState) (acc : List RoundState)
+    (inv : PvInv cands st prev acc) (inv2 : PvInv2 st prev)
+    (hm : m ≤ st.prof.cands.length) (hfuel : st.prof.cands.length - m + 1 ≤ fuel)
+    (hguard : prev.round = 0 → st.prof.cands.length = m ∨ m + 1 ≤ positiveCount prev.scores) :
+    NoFuel (pvLoop m tb cands.length fuel st prev acc) := by
+  induction fuel generalizing st prev acc with
+  | zero => omega
+  | succ fuel ih =>
+    -- the standing candidates are the candidates not yet eliminated
+    have hlenpart : st.prof.cands.length + (eliminatedIn acc).length = cands.length := by
+      have := inv.part.length_eq
+      simpa using this
+    have helen : st.elim.length = (eliminatedIn acc).length := inv.elim.length_eq
+    unfold pvLoop
+    split
+    · -- the last round
+      rename_i hcond
+      obtain ⟨older, hacc⟩ := inv.head
+      have hgood := inv.good
+      rw [hacc] at hgood
+      obtain ⟨hperm, _⟩ := hgood
+      rw [← hacc, inv.noelect, List.append_nil] at hperm
+      have hlen : prev.remaining.flatten.length + (eliminatedIn acc).length = cands.length := by
+        have := hperm.length_eq
+        simpa using this
+      have hfinE : electedIn ({ round := prev.round + 1, elected := prev.remaining } :: acc) = prev.remaining.flatten := by
+        rw [electedIn_cons]; simp [inv.noelect]
+      have hcount : (electedOf ({ round := prev.round + 1, elected := prev.remaining } :: acc)).length = m := by
+        show (electedIn _).length = m
+        rw [hfinE]; omega
+      simp only [hcount, ge_iff_le, le_refl, if_true]
+      split
+      · exact noFuel_ok _
+      · exact noFuel_mismatch
+    · rename_i hcond
+      have hgt : m < st.prof.cands.length := by omega
+      cases hr : pvRound tb st prev with
+      | raised e => simp only [bind, Outcome.bind]; exact noFuel_raised _
+      | oracleMismatch => simp only [bind, Outcome.bind]; exact noFuel_mismatch
+      | outOfFuel => exact absurd hr (noFuel_pvRound tb st prev)
+      | ok r =>
+        obtain ⟨st', s⟩ := r
+        simp only [bind, Outcome.bind]
+        have hinv' := pvRound_inv cands hcn tb st st' prev s acc inv hr
+        -- some ballot still ranks somebody
+        have hlive : liveBallots st.prof ≠ [] := by
+          by_cases h0 : prev.round = 0
+          · rcases hguard h0 with hg | hg
+            · omega
+            · have hpc : 0 < positiveCount prev.scores := by omega
+              unfold positiveCount at hpc
+              obtain ⟨cs, hcs⟩ := List.exists_mem_of_length_pos hpc
+              obtain ⟨hcs1, hcs2⟩ := List.mem_filter.1 hcs
+              have hpos := posSum_pos_of_mem prev.scores cs hcs1 (by simpa using hcs2)
+              rw [inv2.sum] at hpos
+              intro e
+              rw [e] at hpos
+              simp at hpos
+          · have hne : st.prof.cands ≠ [] := by
+              intro e; rw [e] at hgt; simp at hgt
+            obtain ⟨c, hc⟩ := List.exists_mem_of_ne_nil _ hne
+            obtain ⟨b, hb, hd, tl, hrk, _⟩ := inv.later h0 c hc
+            intro e
+            have : b ∈ liveBallots st.prof := List.mem_filter.2 ⟨hb, by simp [hrk]⟩
+            rw [e] at this; cases this
+        obtain ⟨hinv2', c0, hflat⟩ := pvRound_progress cands hcn tb st st' prev s acc inv inv2 hlive hr
+        -- how many candidates were removed
+        have hlenpart' : st'.prof.cands.length + (eliminatedIn (s :: acc)).length = cands.length := by
+          have := hinv'.part.length_eq
+          simpa using this
+        have hsplit : st'.prof.cands.length + (sortCands (zeroOf prev ++ [c0])).length = st.prof.cands.length := by
+          rw [eliminatedIn_cons, hflat, List.length_append] at hlenpart'
+          omega
+        have hW1 : 1 ≤ (sortCands (zeroOf prev ++ [c0])).length := by
+          have : c0 ∈ sortCands (zeroOf prev ++ [c0]) := (mem_sortCands _ _).2 (by simp)
+          exact List.length_pos_of_mem this
+        have hWle : (sortCands (zeroOf prev ++ [c0])).length ≤ (zeroOf prev).length + 1 := by
+          have := sortCands_length_le (zeroOf prev ++ [c0])
+          simpa using this
+        have hm' : m ≤ st'.prof.cands.length := by
+          by_cases h0 : prev.round = 0
+          · rcases hguard h0 with hg | hg
+            · omega
+            · have hz := zero_length prev h0
+              have hk : prev.scores.length = st.prof.cands.length := by
+                have := scoreFromRankings_keys _ _ _ (inv.first h0).1
+                rw [← this, List.length_map]
+              omega
+          · have hz0 : (zeroOf prev).length = 0 := by unfold zeroOf; simp [h0]
+            omega
+        apply ih st' s (s :: acc) hinv' hinv2' hm' (by omega)
+        intro h0
+        have hsr : s.round = prev.round + 1 := by
+          obtain ⟨out, sc, elimNow, _, _, _, _, hs⟩ := pvRound_shape tb st st' prev s hr
+          rw [hs]
+        omega
+
+theorem perm_range_of_check (order : List Nat) (k : Nat) (h : isPermOfRange order k = true) :
+    order.Perm (List.range k) := by
+  unfold isPermOfRange at h
+  simp only [Bool.and_eq_true, decide_eq_true_eq, List.all_eq_true, List.contains_iff_mem, List.mem_range] at h
+  obtain ⟨hlen, hall⟩ := h
+  have hsub : List.range k ⊆ order := fun i hi => hall i (List.mem_range.1 hi)
+  have hsp : List.Subperm (List.range k) order := List.subperm_of_subset List.nodup_range hsub
+  exact (hsp.perm_of_length_le (by simp [hlen])).symm
+
+/-- **Termination guard for PluralityVeto.** For every profile with a duplicate-free candidate list whose
+ballots mention only declared candidates, never one twice, and have no empty position: if all
+candidates are to be seated or at least `m + 1` candidates have a first-place vote, then for every
+tiebreak, processing order and sample stream the run ends with a result or an exception — never with
+the endless loop of finding F-C01-f (whose witness `C01_veto_loops_at` has one candidate with a
+first-place vote for two seats). -/
+theorem C01_veto_terminates (p : Profile) (m : Int) (tb : Option TB) (ω : PVOracle)
+    (hn : p.cands.Nodup)
+    (hcast : ∀ b ∈ p.ballots, ∀ c ∈ b.ranking.flatten, c ∈ p.cands)
+    (hpos : ∀ b ∈ p.ballots, ∀ s ∈ b.ranking, s ≠ [])
+    (hnd : ∀ b ∈ p.ballots, b.ranking.flatten.Nodup)
+    (hguard : ∀ sc0, firstPlaceVotes { ballots := decondense p.ballots, cands := p.cands } = .ok sc0 →
+      m.toNat = p.cands.length ∨ m.toNat + 1 ≤ positiveCount sc0) :
+    NoFuel (pluralityVetoRun p m tb ω) := by
+  unfold pluralityVetoRun
+  cases hv : pluralityVetoValidate p m tb with
+  | raised e => simp only [bind, Outcome.bind]; exact noFuel_raised _
+  | oracleMismatch => simp only [bind, Outcome.bind]; exact noFuel_mismatch
+  | outOfFuel =>
+    exfalso
+    unfold pluralityVetoValidate at hv
+    split at hv; · cases hv
+    split at hv; · cases hv
+    split at hv; · cases hv
+    split at hv <;> cases hv
+  | ok u =>
+    simp only [bind, Outcome.bind]
+    split; · exact noFuel_mismatch
+    rename_i hperm
+    have hperm' : isPermOfRange ω.order (decondense p.ballots).length = true := by simpa using hperm
+    have hne : ∀ b ∈ p.ballots, b.ranking ≠ [] := by
+      unfold pluralityVetoValidate at hv
+      split at hv; · cases hv
+      rename_i hany
+      intro b hb e
+      apply hany
+      exact List.any_eq_true.2 ⟨b, hb, by simp [e]⟩
+    have hmrange : 0 < m ∧ m ≤ p.cands.length := by
+      unfold pluralityVetoValidate at hv
+      split at hv; · cases hv
+      split at hv; · cases hv
+      split at hv
+      · cases hv
+      · rename_i hm
+        simp only [Bool.or_eq_true, decide_eq_true_eq, not_or, not_le, not_lt] at hm
+        exact hm
+    cases hf : firstPlaceVotes { ballots := decondense p.ballots, cands := p.cands } with
+    | raised e => exact noFuel_raised _
+    | oracleMismatch => exact noFuel_mismatch
+    | outOfFuel => exact absurd hf (noFuel_scoreFromRankings _ _)
+    | ok sc0 =>
+      simp only
+      have hkeys : sc0.map (·.1) = p.cands :=
+        scoreFromRankings_keys { ballots := decondense p.ballots, cands := p.cands } _ _ hf
+      have hrem0 : (scoreToRanking sc0).flatten.Perm p.cands := by
+        have := scoreToRanking_perm sc0
+        rwa [hkeys] at this
+      have hall : ∀ b' ∈ decondense p.ballots, b'.ranking ≠ [] := by
+        intro b' hb'
+        obtain ⟨b, hb, hr, _, _⟩ := mem_decondense _ b' hb'
+        rw [hr]; exact hne b hb
+      have inv : PvInv p.cands
+          { prof := { ballots := decondense p.ballots, cands := p.cands }, order := ω.order, elim := [],
+            samples := ω.samples }
+          (initialState p.cands (some sc0)) [initialState p.cands (some sc0)] := by
+        refine ⟨⟨hn, ?_, ?_, ?_, ?_⟩, ?_, ?_, ?_, ⟨[], rfl⟩, ?_, ?_, ?_, ⟨?_, trivial⟩⟩
+        · intro b' hb' c hc
+          obtain ⟨b, hb, hr, _, _⟩ := mem_decondense _ b' hb'
+          rw [hr] at hc; exact hcast b hb c hc
+        · intro b' hb' s hs
+          obtain ⟨b, hb, hr, _, _⟩ := mem_decondense _ b' hb'
+          rw [hr] at hs; exact hpos b hb s hs
+        · intro b' hb' _
+          obtain ⟨b, hb, _, hw, _⟩ := mem_decondense _ b' hb'
+          rw [hw]; decide
+        · intro b' hb'
+          obtain ⟨b, hb, _, _, hs⟩ := mem_decondense _ b' hb'
+          exact hs
+        · simp [eliminatedIn, initialState]
+        · simp [electedIn, initialState]
+        · simp [eliminatedIn, initialState]
+        · intro c hc
+          simp only [initialState] at hc
+          rw [hkeys] at hc; exact hc
+        · intro _
+          exact ⟨by simpa [initialState] using hf, hall⟩
+        · intro h0; simp [initialState] at h0
+        · simpa [initialState, electedIn, eliminatedIn] using hrem0
+      have hsum := fpv_posSum { ballots := decondense p.ballots, cands := p.cands } sc0 hf hn hall
+        (by intro b' hb' s hs
+            obtain ⟨b, hb, hr, _, _⟩ := mem_decondense _ b' hb'
+            rw [hr] at hs; exact hpos b hb s hs)
+        (by intro b' hb'
+            obtain ⟨b, hb, hr, _, _⟩ := mem_decondense _ b' hb'
+            rw [hr]; exact hnd b hb)
+        (by intro b' hb' c hc
+            obtain ⟨b, hb, hr, _, _⟩ := mem_decondense _ b' hb'
+            rw [hr] at hc; exact hcast b hb c hc)
+        (by intro b' hb'
+            obtain ⟨b, hb, _, hw, _⟩ := mem_decondense _ b' hb'
+            exact hw)
+      have inv2 : PvInv2
+          { prof := { ballots := decondense p.ballots, cands := p.cands }, order := ω.order, elim := [],
+            samples := ω.samples }
+          (initialState p.cands (some sc0)) := by
+        refine ⟨⟨?_, ?_⟩, perm_range_of_check _ _ hperm', ?_⟩
+        · intro b' hb' _
+          obtain ⟨b, hb, _, hw, _⟩ := mem_decondense _ b' hb'
+          exact hw
+        · intro b' hb'
+          obtain ⟨b, hb, hr, _, _⟩ := mem_decondense _ b' hb'
+          rw [hr]; exact hnd b hb
+        · have hlive : liveBallots { ballots := decondense p.ballots, cands := p.cands } = decondense p.ballots := by
+            unfold liveBallots
+            apply List.filter_eq_self.2
+            intro b' hb'
+            have := hall b' hb'
+            cases hr : b'.ranking with
+            | nil => exact absurd hr this
+            | cons _ _ => simp
+          simp only [initialState]
+          rw [hlive]; exact hsum.1
+      have hmn : m.toNat ≤ p.cands.length := by omega
+      refine pvLoop_noFuel p.cands hn m.toNat (by omega) tb _ _ _ _ inv inv2 hmn (by simp only; omega) ?_
+      intro _
+      simp only [initialState]
+      exact (hguard sc0 hf).imp Eq.symm id
+
+/-- non-vacuity: every hypothesis of `C01_veto_terminates`, the guard included, holds on `vetoProfile`
+(three candidates, each with a first-place vote, one seat) -/
+example : NoFuel (pluralityVetoRun vetoProfile 1 none { order := [2, 0, 3, 1] }) := by
+  apply C01_veto_terminates
+  · decide
+  · decide
+  · decide
+  · decide
+  · intro sc0 h
+    have hv : firstPlaceVotes { ballots := decondense vetoProfile.ballots, cands := vetoProfile.cands } =
+        .ok [(0, 2), (1, 1), (2, 1)] := by decide +kernel
+    rw [hv] at h
+    injection h with h
+    subst h
+    right
+    decide +kernel
 
 end VK
